@@ -90,7 +90,7 @@ fn gen_sys(r: &mut Rng) -> (String, usize, Vec<Row>) {
     let p: Vec<f64> = (0..n).map(|_| r.range(-6, 6) as f64 / 2.0).collect();
     let pyth = r.chance(1, 3);
     let mkrow = |r: &mut Rng| if pyth { pyth_row(r, n) } else { gen_row(r, n, 8) };
-    match r.below(8) {
+    match r.below(9) {
         0 | 1 => {
             kind.push_str("bounded");
             for j in 0..n {
@@ -138,6 +138,18 @@ fn gen_sys(r: &mut Rng) -> (String, usize, Vec<Row>) {
                 let a = mkrow(r);
                 rows.push((a, half(r, -8, 8)));
             }
+        }
+        8 => {
+            // zero rows only, biases of mixed sign: the whole space if every bias is >= 0, else the empty set
+            // (at least one negative bias here; the all-non-negative case is kind tautonly)
+            kind.push_str("zeroonly");
+            let m = 2 + r.below(3);
+            let neg = r.below(m);
+            for i in 0..m {
+                let b = if i == neg { -[0.5, 1.0, 2.0][r.below(3)] } else { [-1.0, 0.0, -0.0, 0.5, 1.0, 2.0][r.below(6)] };
+                rows.push((vec![0.0; n], b));
+            }
+            return (kind, n, rows);
         }
         6 => {
             // tautologies only (zero rows with non-negative bias)
